@@ -129,6 +129,11 @@ def search(ctx, budget):
             ctx.failures.append(({'stage': 'spec', 'seed': j[0], 'root': j[1], 'depth': j[2], 'text': r[2]}, r[1]))
         elif r[0] == 'ok' and r[1] >= 4:
             ctx.nontrivial(j[:2])
+    aj = [(root, d, tag, att, v) for d, tag, att in ATTR_DOCS for v in ATTR_VALUES for root in (['act', 'doc'] if v == ATTR_VALUES[0] else ['act'])]
+    for j, r in zip(aj, impl.pmap(_attr_oracle, aj, chunk=16)):
+        ctx.evaluations += 1; ctx.count('attribute_value_docs_' + r[0])
+        if r[0] == 'bad':
+            ctx.failures.append(({'stage': 'attr-value', 'args': list(j), 'text': j[1] % j[4]}, r[1]))
     kd = keyword_docs()
     for i, r in enumerate(impl.pmap(_kw_oracle, list(range(len(kd))), chunk=8)):
         ctx.evaluations += 1; ctx.count('keyword_docs_' + r[0])
@@ -148,6 +153,27 @@ def search(ctx, budget):
     ctx.sample({'seed': js[0][0], 'root': js[0][1], 'text': (d[0] if d else '')[:600]})
 
 
+# ---- the value of an attribute written in the text is the value on the element: README's `{name value}` promises the value as written,
+# edges trimmed - blanks of any kind INSIDE the value (a non-breaking space in a title, two spaces, a thin space) are part of it ----
+ATTR_DOCS = [("x {{abbr{title %s} SA}} y\n", 'abbr', 'title'), ("x {{term{refersTo #x|title %s} t}} y\n", 'term', 'title'), ("P{title %s} text\n", 'p', 'title'),
+             ("QUOTE{startQuote %s}\n  quoted\n", 'embeddedStructure', 'startQuote'), ("TABLE\n  TR\n    TC{title %s|colspan 2}\n      cell\n", 'td', 'title'),
+             ("SEC{title %s} 1. - H\n  x\n", 'section', 'title'), ("x {{inline{title %s} x}}\n", 'inline', 'title'), ("BLOCKS{title %s}\n  x\n", 'blockContainer', 'title'),
+             ("ITEMS{title %s}\n  ITEM (a)\n    x\n", 'blockList', 'title'), ("CROSSHEADING{title %s} ch\n", 'crossHeading', 'title')]
+ATTR_VALUES = ['Soci\u00e9t\u00e9\u00a0Anonyme', 'two  spaces', 'a\u2003b c', '\u00ab\u00a0x', 'x\u202fy', 'a   b   c', 'one', 'a - b', 'x.y/z', '1\u00a0000', '\u00a7\u00a012']
+def _attr_oracle(args):
+    root, d, tag, att, v = args
+    from bluebell.parser import AkomaNtosoParser
+    from cobalt import FrbrUri
+    try:
+        x = AkomaNtosoParser(FrbrUri.parse(stages.URIS[0]), '').parse_to_xml(d % v, root)
+    except Exception as e:
+        return ('bad', 'conversion raised %s' % impl.exc_kind(e))
+    els = list(x.iter('{*}' + tag))
+    got = els[0].get(att) if els else None
+    if got != v:
+        return ('bad', 'attribute %s written as %r comes out as %r on <%s>' % (att, v, got, tag))
+    return ('ok', None)
+
 # ---- instances of C04_hier_element_converts, run on the implementation ----
 HE_NUMS = ['1', '1.', '(a)', '3A', '12bis', 'IV.', '1.2.3', '(iii)', 'A-1', '10/2', '²', 'é1', '1:2', '[b]', '7*', '1,5', '99.', 'ix)']
 HE_WORDS = ['the', 'Minister', 'may', 'delegate', '*', '/', '_', '{x}', '2/3', '50%', 'a-b', '(a)', 'été', 'אב', "it's", 'of_them', 'x.', 'section', 'part', '}', '{', 'P1', 'Powers', '-', '1.']
@@ -161,18 +187,19 @@ def hier_element_cases(ctx, n):
         if h.startswith('-') or t[0].isupper() and t.split(' ')[0] in ('P', 'P1'):
             h = 'a ' + h
         # (the last component: blank lines between the keyword line and its content - C04_hier_element_converts_blank_lines)
-        out.append((ctx.rng.choice(stages.URIS), ctx.rng.choice(stages.PREFIXES), kw, ctx.rng.choice(HE_NUMS), h, t, ctx.rng.randint(1, 6), ctx.rng.choice([0, 0, 1, 1, 2, 5])))
+        out.append((ctx.rng.choice(stages.URIS), ctx.rng.choice(stages.PREFIXES), kw, ctx.rng.choice(HE_NUMS), h if i % 3 else None, t, ctx.rng.randint(1, 6), ctx.rng.choice([0, 0, 1, 1, 2, 5])))
     return out
 
 def _he_oracle(args):
     uri, prefix, kw, n, h, t, k = args[:7]
     b = args[7] if len(args) > 7 else 0
-    text = '%s %s - %s\n%s%s%s\n' % (kw, n, h, '\n' * b, ' ' * k, t)
+    # (h None: the element without a heading, C04_hier_element_without_heading_converts)
+    text = ('%s %s - %s\n%s%s%s\n' % (kw, n, h, '\n' * b, ' ' * k, t)) if h is not None else ('%s %s\n%s%s%s\n' % (kw, n, '\n' * b, ' ' * k, t))
     tag = absdoc.HIER[kw]
     G = eidlib.tables()
     cand = (prefix + '__' if prefix else '') + G.aliases.get(tag, tag) + '_' + eidlib.clean_num_ref(n)
-    want = ['E', tag, [['eId', cand]], [['E', 'num', [], [['T', n]]], ['E', 'heading', [], [['T', h]]],
-                                        ['E', 'content', [], [['E', 'p', [['eId', cand + '__p_1']], [['T', t]]]]]]]
+    want = ['E', tag, [['eId', cand]], [['E', 'num', [], [['T', n]]]] + ([['E', 'heading', [], [['T', h]]]] if h is not None else []) +
+                                       [['E', 'content', [], [['E', 'p', [['eId', cand + '__p_1']], [['T', t]]]]]]]
     got = impl.e2e_sx((uri, 'hier_element', prefix, text))
     if got != want:
         return ('bad', 'C04_hier_element_converts predicts %r, the implementation gives %r' % (want, got), text)
@@ -224,6 +251,8 @@ def replay(obj):
         r = _kw_oracle(case['index']); print(r[:2]); return 1 if r[0] == 'bad' else 0
     if case.get('stage') == 'hier-chain':
         a = case['args']; r = _chain_oracle((a[0], a[1], [tuple(l) for l in a[2]], a[3], a[4])); print(r[:2]); return 1 if r[0] == 'bad' else 0
+    if case.get('stage') == 'attr-value':
+        r = _attr_oracle(tuple(case['args'])); print(r); return 1 if r[0] == 'bad' else 0
     if case.get('stage') == 'hier-element':
         r = _he_oracle(tuple(case['args'])); print(r[:2]); return 1 if r[0] == 'bad' else 0
     return 0 if stages.replay_stage(case) else 1
@@ -237,7 +266,7 @@ LEVEL_TEXT = ('Partial. Proved, on the tables regenerated from README.md, akn.pe
               'without blank or backslash, every heading and content line of plain or escaped characters, in any context, rule hier_element of the regenerated grammar and to_dict '
               'give the hier node with the keyword\'s element, that num, that heading and one paragraph (C04_hier_element_yields_hier_node); and through the WHOLE pipeline model - '
               'pre_parse, grammar, to_dict, XML builder, post-processing, eIds - `KEYWORD num - heading` + an indented plain line converts, for every known URI and every prefix, to '
-              '<tag eId=prefix__abbr_num><num/><heading/><content><p eId=...__p_1/></content></tag> (C04_hier_element_converts; with any number of blank lines between the keyword line and its content: C04_hier_element_converts_blank_lines; instances run on the implementation on every run); and indentation nesting becomes element nesting to ANY depth: a chain of hierarchical elements nested in one another around a plain line is read by hier_element as one nest and to_dict gives the hier nodes nested in the same way, by induction over the depth (C04_hier_chain_yields_nested_nodes), and through the WHOLE pipeline model such a nest - any depth, any indentation widths, every known URI and prefix - converts to the elements nested in the same way with every eId the parent\'s eId + __abbr_num (C04_hier_chain_converts; nests of up to 20 levels run through the whole implementation on every run). '
+              '<tag eId=prefix__abbr_num><num/><heading/><content><p eId=...__p_1/></content></tag> (C04_hier_element_converts; with any number of blank lines between the keyword line and its content: C04_hier_element_converts_blank_lines; the same for the element WITHOUT a heading, `KEYWORD num` + indented line - the commonest form: C04_hier_element_without_heading_converts; instances of all three run on the implementation on every run); and indentation nesting becomes element nesting to ANY depth: a chain of hierarchical elements nested in one another around a plain line is read by hier_element as one nest and to_dict gives the hier nodes nested in the same way, by induction over the depth (C04_hier_chain_yields_nested_nodes), and through the WHOLE pipeline model such a nest - any depth, any indentation widths, every known URI and prefix - converts to the elements nested in the same way with every eId the parent\'s eId + __abbr_num (C04_hier_chain_converts; nests of up to 20 levels run through the whole implementation on every run). '
               'For all other shapes the whole-document statement (text -> prescribed tree) is decided by the '
               'independent specification generator absdoc.py on sampled abstract documents x seven roots, plus every keyword exhaustively, on the '
               'implementation; the model is tied to the code on the same documents by the e2e and dict stages.')
